@@ -1,4 +1,5 @@
 -------------------------------- MODULE Q --------------------------------
+LOCAL INSTANCE TLC
 (***************************************************************************)
 (* Exact arbitrary-precision rationals for TLC: the canonical string "n/d" *)
 (* (d > 0, lowest terms); overridden by tlc2.module.Q on BigInteger.       *)
@@ -16,5 +17,6 @@ QLt(a, b)  == CHOOSE x \in BOOLEAN : TRUE
 QLe(a, b)  == CHOOSE x \in BOOLEAN : TRUE
 QIsZero(a) == CHOOSE x \in BOOLEAN : TRUE
 QStr(a)    == CHOOSE x \in {} : TRUE
+QNoFn(a) == Assert(FALSE, "transcendental function not available over exact rationals")
 QEq(a, b, scale) == a = b       \* canonical form: equality is string equality
 =============================================================================
